@@ -112,7 +112,7 @@ func genHistoryReq(r *gen.Rand, tag string, custom bool) wreq {
 		q.Other = "name=" + tag + "cn; tag=" + tag + "ct; n=" + gen.Pick(r, []string{"5", "x", ""})
 	}
 	kind := ""
-	switch r.PickW(14, 12, 14, 10, 10, 6, 4, 5, 5, 4, 4, 6, 6, 10) {
+	switch r.PickW(14, 12, 14, 10, 10, 6, 4, 5, 5, 4, 4, 6, 6, 10, 10, 10, 8) {
 	case 0:
 		kind = "many-params"
 		var sb strings.Builder
@@ -193,6 +193,19 @@ func genHistoryReq(r *gen.Rand, tag string, custom bool) wreq {
 		q.Target = "/locals/" + tag
 	case 13:
 		return genHalfBind(r, tag, q, class)
+	case 14:
+		return genXBind(r, tag, q, class, "")
+	case 15:
+		return genRedirFail(r, tag, q, class)
+	case 16:
+		kind = "sendfile"
+		q.Target = "/file/" + strconv.Itoa(r.Intn(nSendFileVariants)) + "?f=" + gen.Pick(r, []string{"a", "a", "b", "c"})
+		if r.Chance(1, 4) {
+			q.Hdr = append(q.Hdr, [2]string{"Range", "bytes=0-9"})
+		}
+		if r.Chance(1, 4) {
+			q.Hdr = append(q.Hdr, [2]string{"Accept-Encoding", "gzip"})
+		}
 	case 11:
 		// malformed request line / header: the server error path acquires a context too
 		kind = "malformed"
@@ -243,7 +256,82 @@ func genHalfBind(r *gen.Rand, tag string, q *reqSpec, class string) wreq {
 	return wreq{Kind: kind, Raw: q.raw(), Cookie: class}
 }
 
+// xData puts a distinct value under every name of xsrc into every source of the request.
+func xData(q *reqSpec, tag string, formBody bool) (query string) {
+	var qs, fs, cs []string
+	for _, n := range xNames {
+		cs = append(cs, n+"="+tag+"-cookie-"+n)
+		if n == "a" || n == "b" {
+			// the probe's failing-bind check owns the query/form names a and b (one failing field
+			// only: the schema decoder reports several errors in map order)
+			continue
+		}
+		qs = append(qs, n+"="+tag+"-query-"+n)
+		fs = append(fs, n+"="+tag+"-form-"+n)
+	}
+	for _, n := range []string{"Xterm", "Xpage", "Rterm", "Rpage"} {
+		q.Hdr = append(q.Hdr, [2]string{n, tag + "-header-" + n})
+	}
+	if q.Other != "" {
+		q.Other += "; "
+	}
+	q.Other += strings.Join(cs, "; ")
+	if formBody {
+		q.Method = "POST"
+		q.CType = "application/x-www-form-urlencoded"
+		q.Body = []byte(strings.Join(fs, "&"))
+	}
+	return strings.Join(qs, "&")
+}
+
+// genXBind: the history binds the multi-named struct from one or two sources.
+func genXBind(r *gen.Rand, tag string, q *reqSpec, class string, force string) wreq {
+	src := force
+	if src == "" {
+		src = gen.Pick(r, xSources)
+		if r.Chance(1, 4) {
+			src += "." + gen.Pick(r, xSources)
+		}
+	}
+	query := xData(q, tag, strings.Contains(src, "form") || r.Chance(1, 4))
+	q.Target = "/xbind/" + tag + "-uri-a/" + tag + "-uri-b?src=" + src + "&" + query
+	return wreq{Kind: "xbind-" + src, Raw: q.raw(), Cookie: class}
+}
+
+// genRedirFail: a Redirect is configured (status, flash messages, old input) and then not
+// performed, or performed on an unusual path.
+func genRedirFail(r *gen.Rand, tag string, q *reqSpec, class string) wreq {
+	mode := gen.Pick(r, []string{"back", "back", "return", "err", "route", "backref"})
+	q.Method = gen.Pick(r, []string{"GET", "GET", "POST"})
+	q.Target = "/redirfail/" + tag + "?status=" + gen.Pick(r, []string{"301", "303", "307", "308"}) +
+		"&with=" + gen.Pick(r, []string{"0", "1"}) + "&name=" + tag + "qn"
+	if mode == "backref" {
+		q.Target += "&mode=back"
+		q.Hdr = append(q.Hdr, [2]string{"Referer", "http://ref.example/" + tag})
+	} else {
+		q.Target += "&mode=" + mode
+	}
+	if q.Method == "POST" {
+		q.Body = []byte{}
+	}
+	return wreq{Kind: "redirect-unfinished-" + mode, Raw: q.raw(), Cookie: class}
+}
+
+// genFileProbe: the probe is a SendFile route; the observation is the whole response.
+func genFileProbe(r *gen.Rand, variant int) probeSpec {
+	q := &reqSpec{Host: gen.Pick(r, hosts)}
+	q.Target = "/file/" + strconv.Itoa(variant) + "?probe=1&f=" + gen.Pick(r, []string{"a", "a", "b", "c"})
+	if r.Chance(1, 3) {
+		q.Hdr = append(q.Hdr, [2]string{"Range", "bytes=0-9"})
+	}
+	if r.Chance(1, 3) {
+		q.Hdr = append(q.Hdr, [2]string{"Accept-Encoding", "gzip"})
+	}
+	return probeSpec{Route: -1, Class: ckNone, Variant: "sendfile", Raw: q.raw()}
+}
+
 type probeSpec struct {
+	XSrc    string // source the probe binds the multi-named struct from ("" = not at all)
 	Route   int
 	Class   string // flash cookie class of the probe
 	Variant string // "", "R"
@@ -253,9 +341,24 @@ type probeSpec struct {
 
 // genProbe draws the probe request. Its values carry the tag "PRB".
 func genProbe(r *gen.Rand, forceClass string) probeSpec {
+	return genProbeX(r, forceClass, "?")
+}
+
+// genProbeX: xsrc "?" = draw (half of the probes bind the multi-named struct), "" = never.
+func genProbeX(r *gen.Rand, forceClass string, xsrcSel string) probeSpec {
 	const tag = "PRB"
 	ps := probeSpec{Route: r.Intn(len(probeRoutes))}
 	q := &reqSpec{Host: gen.Pick(r, hosts), Method: gen.Pick(r, []string{"GET", "GET", "POST", "PUT"})}
+	if xsrcSel == "?" {
+		xsrcSel = ""
+		if r.Bool() {
+			xsrcSel = gen.Pick(r, xSources)
+		}
+	}
+	ps.XSrc = xsrcSel
+	if ps.XSrc == "uri" {
+		ps.Route = r.Intn(2) // the routes that declare :a and :b
+	}
 	switch ps.Route {
 	case 0:
 		q.Target = "/probe/" + seg(r, tag) + "x/" + seg(r, tag) + "y/" + seg(r, tag) + "z"
@@ -278,8 +381,11 @@ func genProbe(r *gen.Rand, forceClass string) probeSpec {
 	}
 	var qs []string
 	if r.Chance(1, 3) {
-		ps.Variant = "R"
-		qs = append(qs, "variant=R")
+		ps.Variant = gen.Pick(r, []string{"R", "R", "RB", "RR"})
+		qs = append(qs, "variant="+ps.Variant)
+		if ps.Variant == "RB" && r.Bool() {
+			q.Hdr = append(q.Hdr, [2]string{"Referer", "http://ref.example/" + tag})
+		}
 	}
 	if r.Bool() {
 		qs = append(qs, "name="+tag+"qn", "l="+tag+"l1", "l="+tag+"l2")
@@ -299,7 +405,15 @@ func genProbe(r *gen.Rand, forceClass string) probeSpec {
 	if r.Chance(1, 3) {
 		q.Other = "name=" + tag + "cn; tag=" + tag + "ct"
 	}
-	if q.Method != "GET" {
+	if ps.XSrc != "" {
+		xq := xData(q, tag, ps.XSrc == "form")
+		sep := "?"
+		if strings.Contains(q.Target, "?") {
+			sep = "&"
+		}
+		q.Target += sep + "xsrc=" + ps.XSrc + "&" + xq
+	}
+	if q.Method != "GET" && q.Body == nil {
 		switch r.Intn(3) {
 		case 0:
 			q.CType = "application/x-www-form-urlencoded"
@@ -483,6 +597,14 @@ type isoCase struct {
 }
 
 func genIsoCase(r *gen.Rand) isoCase {
+	ic := genIsoCase0(r)
+	if r.Chance(1, 12) {
+		ic.Probe = genFileProbe(r.Split(), r.Intn(nSendFileVariants))
+	}
+	return ic
+}
+
+func genIsoCase0(r *gen.Rand) isoCase {
 	ic := isoCase{Cfg: isoCfg{Custom: r.Chance(1, 3), PassLocals: r.Bool(), Immutable: r.Chance(1, 4), CaseSens: r.Chance(1, 4), Strict: r.Chance(1, 4)}}
 	n := r.Range(1, 12)
 	for i := 0; i < n; i++ {
@@ -499,7 +621,10 @@ func judgeIso(e *ev.Env, c *ev.Case, ic isoCase) {
 	freshPools()
 	fapp, fs := isoBuild(ic.Cfg)
 	fsv := serveScript(drive.NewWire(fapp), []wreq{probeReq})
-	// after the history
+	// after the history. The process-wide pools are emptied again: what the reference run left in
+	// them (e.g. a schema decoder that has already seen the probe's struct type) must not prime the
+	// history run.
+	freshPools()
 	happ, hs := isoBuild(ic.Cfg)
 	script := append(append([]wreq(nil), ic.History...), probeReq)
 	hsv := serveScript(drive.NewWire(happ), script)
@@ -572,6 +697,8 @@ func judgeIso(e *ev.Env, c *ev.Case, ic isoCase) {
 		switch k {
 		case "bind":
 			sig = "leak|bind|" + bindDiffSources(fs.vec[k], hs.vec[k])
+		case "bind-xsrc":
+			sig = "leak|bind-xsrc|" + ic.Probe.XSrc
 		case "flash-messages", "old-inputs":
 			if flashDone {
 				continue
@@ -670,6 +797,7 @@ func runIsolation(e *ev.Env) {
 		// pooled reuse is only deterministic with one P; the counters below tell what happened
 		e.Note("gomaxprocs", strconv.Itoa(runtime.GOMAXPROCS(0)))
 	}
+	defer cleanupFiles()
 	isoCorpus(e)
 	e.Cases("hist", e.N(2000, 60000), func(c *ev.Case) {
 		ic := genIsoCase(c.R)
@@ -716,6 +844,72 @@ func runIsolation(e *ev.Env) {
 			ic.History = append(ic.History, wreq{Kind: "no-bind", Raw: q.raw(), Cookie: ckNone})
 		}
 		ic.Probe = genProbe(r.Split(), "")
+		judgeIso(e, c, ic)
+	})
+	// directed family: one struct type bound from one source by the history and from another by
+	// the probe (all ordered pairs of sources)
+	e.Cases("xsrc", e.N(400, 10000), func(c *ev.Case) {
+		r := c.R
+		ic := isoCase{Cfg: isoCfg{Custom: r.Chance(1, 3), PassLocals: r.Bool(), Immutable: r.Bool()}}
+		pair := c.R.Intn(len(xSources) * len(xSources))
+		hsrc, psrc := xSources[pair/len(xSources)], xSources[pair%len(xSources)]
+		for i := r.Intn(3); i > 0; i-- {
+			ic.History = append(ic.History, genHistoryReq(r.Split(), "h"+strconv.Itoa(len(ic.History))+"x", ic.Cfg.Custom))
+		}
+		for i := r.Range(1, 2); i > 0; i-- {
+			tag := "h" + strconv.Itoa(len(ic.History)) + "x"
+			ic.History = append(ic.History, genXBind(r.Split(), tag, &reqSpec{Host: gen.Pick(r, hosts)}, ckNone, hsrc))
+		}
+		ic.Probe = genProbeX(r.Split(), "", psrc)
+		judgeIso(e, c, ic)
+	})
+	// directed family: a configured but unfinished redirect, then a probe that redirects plainly
+	e.Cases("redirfail", e.N(300, 8000), func(c *ev.Case) {
+		r := c.R
+		ic := isoCase{Cfg: isoCfg{Custom: r.Chance(1, 3), PassLocals: r.Bool(), Immutable: r.Chance(1, 4)}}
+		for i := r.Intn(3); i > 0; i-- {
+			ic.History = append(ic.History, genHistoryReq(r.Split(), "h"+strconv.Itoa(len(ic.History))+"x", ic.Cfg.Custom))
+		}
+		for i := r.Range(1, 2); i > 0; i-- {
+			tag := "h" + strconv.Itoa(len(ic.History)) + "x"
+			ic.History = append(ic.History, genRedirFail(r.Split(), tag, &reqSpec{Host: gen.Pick(r, hosts)}, ckNone))
+		}
+		for i := r.Intn(2); i > 0; i-- {
+			tag := "h" + strconv.Itoa(len(ic.History)) + "x"
+			q := &reqSpec{Target: gen.Pick(r, []string{"/locals/" + tag, "/base", "/nothing/" + tag, "/getonly"})}
+			ic.History = append(ic.History, wreq{Kind: "no-redirect", Raw: q.raw(), Cookie: ckNone})
+		}
+		// a probe that redirects
+		for tries := 0; ; tries++ {
+			ic.Probe = genProbeX(r.Split(), "", "")
+			if ic.Probe.Variant != "" {
+				break
+			}
+		}
+		judgeIso(e, c, ic)
+	})
+	// directed family: SendFile call sites whose configs differ in one option
+	e.Cases("sendfile", e.N(300, 6000), func(c *ev.Case) {
+		r := c.R
+		ic := isoCase{Cfg: isoCfg{Custom: r.Chance(1, 3), Immutable: r.Chance(1, 4)}}
+		pv := r.Intn(nSendFileVariants)
+		for i := r.Range(1, 4); i > 0; i-- {
+			tag := "h" + strconv.Itoa(len(ic.History)) + "x"
+			if r.Chance(3, 4) {
+				hv := r.Intn(nSendFileVariants)
+				q := &reqSpec{Target: "/file/" + strconv.Itoa(hv) + "?f=" + gen.Pick(r, []string{"a", "a", "b", "c"})}
+				if r.Chance(1, 4) {
+					q.Hdr = append(q.Hdr, [2]string{"Range", "bytes=0-9"})
+				}
+				if r.Chance(1, 4) {
+					q.Hdr = append(q.Hdr, [2]string{"Accept-Encoding", "gzip"})
+				}
+				ic.History = append(ic.History, wreq{Kind: "sendfile-" + strconv.Itoa(hv), Raw: q.raw(), Cookie: ckNone})
+			} else {
+				ic.History = append(ic.History, genHistoryReq(r.Split(), tag, ic.Cfg.Custom))
+			}
+		}
+		ic.Probe = genFileProbe(r.Split(), pv)
 		judgeIso(e, c, ic)
 	})
 	if e.Only == "" {
